@@ -428,7 +428,10 @@ func ParseRange(s string) (start, end int64, ok bool) {
 	}
 	p0, err0 := strconv.ParseInt(p0s, 10, 64)
 	p1, err1 := strconv.ParseInt(p1s, 10, 64)
-	if p1 > 0 {
+	// "0-0" is what RangeString produces for the empty range at offset 0
+	// (a Range header cannot express an empty range). Every other
+	// value has an inclusive end, so "n-(n-1)" is the empty range at offset n.
+	if p0 != 0 || p1 != 0 {
 		p1++
 	}
 	return p0, p1, err0 == nil && err1 == nil
